@@ -87,10 +87,12 @@ def classify(case):
         if s.get('intact') and done:
             continue
         earlier = [o for o in ops if o['op'] == 'put' and o['obj'] == s['obj'] and cur and o['last_seq'] < cur['first_seq'] and o['status'] == 'done']
-        return {'shape': 'mixed-versions' if not s.get('intact') else 'unfinished-store-served',
+        return {'shape': 'mixed-content' if not s.get('intact') else 'unfinished-store-served',
+                # torn-write: the slot write in flight was cut (header on disk, payload not or partly); slot-reuse: at a write boundary, the
+                # new inode's successor slot still holds a slot of the previous version of the same URL
+                'cause': 'torn-write' if cut else 'slot-reuse',
                 'during': ('overwrite' if earlier else 'store') if cur else 'idle',
-                'same_key': bool(cur and cur['obj'] == s['obj']),
-                'header_version_is_new': bool(cur and s.get('ver') == cur['ver'])}
+                'same_key': bool(cur and cur['obj'] == s['obj'])}
     return {'shape': 'none'}
 
 
